@@ -24,6 +24,12 @@ def markersA : List Instr → List Nat
   | .apprun :: r => 0 :: markersA r
   | _ :: r => markersA r
 
+/-- the head instruction is `restoreRun`: a `_mainloop` activation has just left its loop and is about to
+set `_run_loop` back to `True` (`execute_new_loop` / `run` is returning) -/
+def headIsRestore : List Instr → Bool
+  | .restoreRun :: _ => true
+  | _ => false
+
 /-- the run is over: an `ExitMainLoop`/uncaught exception/`sys.exit` has unwound all activations
 (at most the quit callback is left to run) -/
 def overCode : List Instr → Bool
@@ -80,6 +86,12 @@ def WFDrain (c : Cfg) : Prop := noDoubleClose c.tr = true
 
 instance (c : Cfg) : Decidable (WFDrain c) := inferInstanceAs (Decidable (_ = _))
 
+/-- the level popped by the newest `close_loop` of the history -/
+def lastClosed : List Tr → Option Nat
+  | [] => none
+  | .closeLevel q :: _ => some q
+  | _ :: tr => lastClosed tr
+
 /-- `MainLoop.force_quit()` has not been called -/
 def NoForceQuit (c : Cfg) : Prop := Tr.forceQuit ∉ c.tr
 
@@ -90,6 +102,25 @@ events: `ExitMainLoop` raised, the uncaught-exception `sys.exit`, `force_quit` -
 def Tr.isEnd : Tr → Bool
   | .exit | .kill | .forceQuit => true
   | _ => false
+
+/-! ### the levels / activations correspondence -/
+
+/-- **The exact correspondence** between the `_mainloop` activations on the call stack (`markersA`,
+innermost first) and the open levels `MainLoop._event_queues` (bottom … top):
+* the run is over (all activations unwound), or force-quit is not set and
+* `_run_loop` is `True` and the activations serve exactly the open levels, in order; or
+* `_run_loop` is `False` and the innermost activation has just left its loop (`restoreRun` is next):
+  again the remaining activations serve exactly the open levels; or
+* `_run_loop` is `False` because `close_loop` popped level `q` (the newest `.closeLevel` of the history)
+  and no activation has returned since: the activations are `q`'s — which is about to return — followed by
+  those of the open levels. -/
+def LevelsInv (c : Cfg) : Prop :=
+  c.Over ∨
+  (c.L.forceQuit = false ∧
+   ((c.L.runLoop = true ∧ markersA c.code = c.L.levels.reverse) ∨
+    (c.L.runLoop = false ∧ headIsRestore c.code = true ∧ markersA c.code = c.L.levels.reverse) ∨
+    (c.L.runLoop = false ∧ headIsRestore c.code = false ∧ closePending c.tr = true ∧ c.L.levels ≠ [] ∧
+       ∃ q, lastClosed c.tr = some q ∧ markersA c.code = q :: c.L.levels.reverse)))
 
 /-! ### exceptions -/
 
